@@ -1,439 +1,15 @@
-(* Bridge/BrLexerFns.v — stage 1 of the lexer bridge (stage 2 and the theorems: Bridge/BrLexer.v).
+(* Bridge/BrLexerFns.v — stage 1 of the lexer bridge, assembled (stage 2 and the theorems: Bridge/BrLexer.v).
    The functions regenerated from /repo/parser/lexer/{lexer,state,utils}.go (gen/GenLexer.v, DSL and interpreter in
-   Lex/LexRules.v), run by the interpreter, are the Gallina functions `g_f` of Lex/LexRulesProofs.v.
-
-   Stage 1 (this file, one lemma `<f>_bridge` per Go function, so that a failure names the culprit): running
-   the regenerated statements of f with the interpreter, every callee answering as `spec` says, gives
-   `spec "f"`, i.e. the Gallina function `g_f` of Lex/LexRulesProofs.v over the Go-shaped state.
-   `all_funs_ok` then ties the knot along the call order of `lexer_funs`.
-   Stage 2 (Lex/LexRulesProofs.v): `g_f` on a state g computes what `Lexer.f` computes on `abs g`.
-   Together: `<f>_is_model` per function, and `gen_lex_is_lex`: the driver over the regenerated state
-   functions, with the fuel of the model, equals `Lexer.lex` on every input. *)
+   Lex/LexRules.v), run by the interpreter, are the Gallina functions `g_f` of Lex/LexRulesProofs.v: the lemmas
+   `<f>_bridge` of Bridge/BrLexerLx.v, BrLexerSt.v, BrLexerRoot.v (one per Go function, so that a failure names the
+   culprit; each assumes that its callees answer as `spec` says) are put together along the call order of
+   `lexer_funs`. *)
 From Coq Require Import ZArith List Bool String Ascii Lia.
 Require Import X.Base.Value X.Syn.Tok X.Lex.Lexer X.Lex.LexRules X.Lex.LexRulesProofs X.gen.GenLexer.
+Require Export X.Bridge.BrLexerTac X.Bridge.BrLexerLx X.Bridge.BrLexerSt X.Bridge.BrLexerRoot.
 Import ListNotations.
 Local Open Scope string_scope.
 Open Scope Z_scope.
-
-(* nothing in the current source is outside the shapes the translator knows *)
-Definition genlexer_all_recognised : bool :=
-  forallb fdef_ok lexer_funs && forallb esc_ok unescape_escapes
-  && match genlexer_unrecognised with [] => true | _ => false end.
-
-Lemma genlexer_recognised : genlexer_all_recognised = true.
-Proof. vm_compute. reflexivity. Qed.
-
-(* ================================================================== stage 1 *)
-Section Stage1.
-Variables ul ud us : Z -> bool.
-Variable F : nat.
-Variable call : string -> list val -> gst -> res (list val).
-
-Notation sig := (sig_ok ul ud us call F).
-
-(* the regenerated body of d, run with `call` for the callees, is `spec` *)
-Definition fn_ok (d : fdef) : Prop :=
-  forall args g, typed (fn_name d) args = true ->
-    run_fn ul ud us call F d args g = spec ul ud us F (fn_name d) args g.
-
-(* symbolic execution: unfold the interpreter over the (concrete) syntax, nothing else *)
-Ltac evf :=
-  lazy [run_fn exec exec_block eval eval_list eval_multi eval_bool match_any truth bind one assign assign_all upd nth
-        get_field set_field get_sub set_sub loc_of bytes_of binop val_eqb is_nil option_map negb olbl_eqb Nat.eqb
-        List.length app repeat map firstn skipn fn_body fn_params fn_locals fn_results fn_name uni
-        spec prim rU rZ rB rS oF vfn stfn_name String.eqb Ascii.eqb Bool.eqb orb andb
-        fn_Lex fn_root fn_identifier fn_not fn_acceptWord fn_dot fn_nilsafe fn_number fn_emit fn_scanNumber
-        fn_IsAlphaNumeric fn_IsAlphabetic fn_peek fn_acceptRun fn_accept fn_backup fn_emitValue fn_word
-        fn_scanString fn_scanEscape fn_scanDigits fn_digitVal fn_lower fn_error fn_IsSpace fn_ignore fn_emitEOF fn_next].
-Ltac ev := evf; cbn [fst snd].
-
-(* a call of a callee: answered by its hypothesis *)
-Ltac calls :=
-  repeat match goal with
-         | H : sig_ok _ _ _ call _ _ |- context [call ?n ?a ?g] => rewrite (H a g eq_refl)
-         end.
-
-Ltac go := repeat (progress (ev; calls)).
-(* the same without the (slow) cbn: for the first run through a long function *)
-Ltac gof := repeat (progress (evf; calls)).
-
-(* case analysis on the innermost condition *)
-Ltac split_one :=
-  match goal with
-  | |- context [if ?c then _ else _] =>
-    lazymatch c with
-    | context [if _ then _ else _] => fail
-    | context [match _ with _ => _ end] => fail
-    | _ => destruct c eqn:?
-    end
-  | |- context [match ?o with Some _ => _ | None => _ end] =>
-    lazymatch o with
-    | context [if _ then _ else _] => fail
-    | context [match _ with _ => _ end] => fail
-    | _ => destruct o as [?|] eqn:?
-    end
-  end.
-
-(* the pairs G-functions return *)
-Ltac pairs := repeat match goal with p : (_ * _)%type |- _ => destruct p end.
-
-Ltac crunch := repeat (split_one; pairs; go); reflexivity.
-
-(* Before a case analysis the calls of G-functions on a state variable are replaced by variables: the kernel
-   would otherwise unfold them when it re-checks the conversions at Qed (exponential in the nesting). *)
-Ltac gen1 :=
-  match goal with
-  (* results that are inspected: they may block the execution on one side *)
-  | |- context [g_next ?x] => is_var x; generalize (g_next x); intros [? ?]
-  | |- context [g_peek ?x] => is_var x; generalize (g_peek x); intros [? ?]
-  | |- context [g_accept ?v ?x] => is_var x; generalize (g_accept v x); intros [? ?]
-  | |- context [g_acceptRun ?n ?v ?x] => is_var x; generalize (g_acceptRun n v x); intros [?|]
-  | |- context [g_word ?x] => is_var x; generalize (g_word x); intro
-  | |- context [unescape ?x] => is_var x; generalize (unescape x); intros [?|]
-  | |- context [g_scanDigits ?n ?a ?b ?c ?x] => is_var x; generalize (g_scanDigits n a b c x); intros [[? ?]|]
-  | |- context [g_scanEscape ?n ?q ?x] => is_var x; generalize (g_scanEscape n q x); intros [[? ?]|]
-  | |- context [g_scanString ?n ?q ?x] => is_var x; generalize (g_scanString n q x); intros [[? ?]|]
-  | |- context [g_scanNumber ?a ?b ?n ?x] => is_var x; generalize (g_scanNumber a b n x); intros [[? ?]|]
-  | |- context [g_acceptWord ?n ?w ?x] => is_var x; generalize (g_acceptWord n w x); intros [[? ?]|]
-  (* state transformers: never inspected, last *)
-  | |- context [g_backup ?x] => is_var x; generalize (g_backup x); intro
-  | |- context [g_error ?x] => is_var x; generalize (g_error x); intro
-  | |- context [g_emit ?k ?x] => is_var x; generalize (g_emit k x); intro
-  | |- context [g_emitValue ?k ?s ?x] => is_var x; generalize (g_emitValue k s x); intro
-  | |- context [g_emitEOF ?x] => is_var x; generalize (g_emitEOF x); intro
-  | |- context [g_ignore ?x] => is_var x; generalize (g_ignore x); intro
-  end.
-Ltac no_g c :=
-  lazymatch c with
-  | context [g_next _] => fail | context [g_peek _] => fail | context [g_backup _] => fail
-  | context [g_accept _ _] => fail | context [g_acceptRun _ _ _] => fail | context [g_word _] => fail
-  | context [g_scanDigits _ _ _ _ _] => fail | context [g_scanEscape _ _ _] => fail
-  | context [g_scanString _ _ _] => fail | context [g_scanNumber _ _ _ _] => fail
-  | context [g_acceptWord _ _ _] => fail
-  | context [if _ then _ else _] => fail
-  | context [match _ with _ => _ end] => fail
-  | _ => idtac
-  end.
-(* case analysis on a condition that mentions no G-function *)
-Ltac sp1 := match goal with |- context [if ?c then _ else _] => no_g c; destruct c end.
-(* conditions first (they may hide a call on one side only), then ONE generalisation, then run on *)
-Ltac case_step := first [sp1; go | gen1; cbn [fst snd]; go].
-Ltac solve_cases := repeat case_step; reflexivity.
-
-Ltac bad T := try (vm_compute in T; discriminate T).
-Ltac no_args args T := destruct args; [|bad T]; clear T.
-Ltac one_arg args T v :=
-  destruct args as [|v [|? ?]]; bad T; destruct v; bad T; clear T.
-
-(* ---------------------------------------------------------------- lexer.go *)
-Lemma next_bridge : fn_ok fn_next.
-Proof. intros args g T. no_args args T. go. unfold g_next. crunch. Qed.
-
-Lemma backup_bridge : fn_ok fn_backup.
-Proof. intros args g T. no_args args T. reflexivity. Qed.
-
-Lemma peek_bridge : sig "next" -> sig "backup" -> fn_ok fn_peek.
-Proof. intros Hnext Hbackup args g T. no_args args T. go. reflexivity. Qed.
-
-Lemma word_bridge : fn_ok fn_word.
-Proof. intros args g T. no_args args T. reflexivity. Qed.
-
-Lemma emitValue_bridge : fn_ok fn_emitValue.
-Proof.
-  intros args g T. destruct args as [|k [|v [|? ?]]]; bad T.
-  destruct k, v; bad T; reflexivity.
-Qed.
-
-Lemma emit_bridge : sig "emitValue" -> sig "word" -> fn_ok fn_emit.
-Proof. intros H1 H2 args g T. one_arg args T v. go. reflexivity. Qed.
-
-Lemma emitEOF_bridge : fn_ok fn_emitEOF.
-Proof. intros args g T. no_args args T. reflexivity. Qed.
-
-Lemma ignore_bridge : fn_ok fn_ignore.
-Proof. intros args g T. no_args args T. reflexivity. Qed.
-
-Lemma error_bridge : fn_ok fn_error.
-Proof. intros args g T. no_args args T. go. unfold g_error. destruct (g_err g); reflexivity. Qed.
-
-Lemma accept_bridge : sig "next" -> sig "backup" -> fn_ok fn_accept.
-Proof. intros H1 H2 args g T. one_arg args T v. go. unfold g_accept. crunch. Qed.
-
-Lemma acceptRun_bridge : sig "next" -> sig "backup" -> fn_ok fn_acceptRun.
-Proof.
-  intros H1 H2 args g T. one_arg args T v. go.
-  match goal with
-  | |- context [for_loop F ?l ?C ?P ?B ?en g] =>
-    assert (L : forall n g0, for_loop n l C P B en g0 =
-                match g_run n (fun r => mem r s) g0 with Some g' => Ok (CNormal, en) g' | None => OutOfFuel end)
-  end.
-  { induction n as [|n IH]; intros g0; [reflexivity|].
-    rewrite for_loop_S. go. cbn [g_run]. destruct (mem (fst (g_next g0)) s); [apply IH|reflexivity]. }
-  rewrite L. unfold g_acceptRun. destruct (g_run F (fun r => mem r s) g); go; reflexivity.
-Qed.
-
-Lemma lower_bridge : fn_ok fn_lower.
-Proof. intros args g T. one_arg args T v. reflexivity. Qed.
-
-Lemma digitVal_bridge : sig "lower" -> fn_ok fn_digitVal.
-Proof. intros H1 args g T. one_arg args T v. go. unfold g_digitVal. crunch. Qed.
-
-Lemma scanDigits_bridge : sig "next" -> sig "digitVal" -> sig "error" -> fn_ok fn_scanDigits.
-Proof.
-  intros H1 H2 H3 args g T.
-  destruct args as [|a [|b [|c [|? ?]]]]; bad T. destruct a, b, c; bad T. clear T. rename z into ch, z0 into base, z1 into n.
-  go.
-  match goal with
-  | |- context [for_loop F ?l ?C ?P ?B _ g] =>
-    assert (L : forall k ch n g0, for_loop k l C P B [VInt ch; VInt base; VInt n] g0 =
-                match g_digits k ch base n g0 with
-                | Some (ch', n', g') => Ok (CNormal, [VInt ch'; VInt base; VInt n']) g'
-                | None => OutOfFuel
-                end)
-  end.
-  { induction k as [|k IH]; intros ch0 n0 g0; [reflexivity|].
-    rewrite for_loop_S. go. cbn [g_digits].
-    destruct (0 <? n0); go; [|reflexivity].
-    destruct (g_digitVal ch0 <? base); go; [apply IH|reflexivity]. }
-  rewrite L. unfold g_scanDigits. destruct (g_digits F ch base n g) as [[[ch' n'] g']|]; go; [|reflexivity].
-  crunch.
-Qed.
-
-Lemma scanEscape_bridge : sig "next" -> sig "scanDigits" -> sig "error" -> fn_ok fn_scanEscape.
-Proof.
-  intros H1 H2 H3 args g T. one_arg args T v. rename z into q. go. unfold g_scanEscape. cbn [mem].
-  repeat (split_one; go; cbn [orb]; try reflexivity).
-  all: try (match goal with |- context [g_scanDigits ?a ?b ?c ?d ?e] => destruct (g_scanDigits a b c d e) as [[? ?]|] end; reflexivity).
-Qed.
-
-Lemma scanString_bridge : sig "next" -> sig "scanEscape" -> sig "error" -> fn_ok fn_scanString.
-Proof.
-  intros H1 H2 H3 args g T. one_arg args T v. rename z into q. go.
-  match goal with
-  | |- context [for_loop F ?l ?C ?P ?B _ _] =>
-    assert (L : forall k cnt ch g0, exists ch' c,
-                for_loop k l C P B [VInt q; VInt cnt; VInt ch] g0 =
-                match g_string F k q cnt ch g0 with
-                | Some (cnt', g') => Ok (c, [VInt q; VInt cnt'; VInt ch']) g'
-                | None => OutOfFuel
-                end /\ (c = CNormal \/ c = CReturn []))
-  end.
-  { induction k as [|k IH]; intros cnt ch g0; [exists 0, CNormal; split; [reflexivity|left; reflexivity]|].
-    rewrite for_loop_S. go. cbn [g_string].
-    destruct (ch =? q); go; cbn [negb]; [exists ch, CNormal; split; [reflexivity|left; reflexivity]|].
-    destruct (ch =? 10); go; cbn [orb]; [exists ch, (CReturn []); split; [reflexivity|right; reflexivity]|].
-    destruct (ch =? -1); go; [exists ch, (CReturn []); split; [reflexivity|right; reflexivity]|].
-    destruct (ch =? 92); go.
-    - destruct (g_scanEscape F q g0) as [[c g']|]; go; [apply IH|].
-      exists 0, CNormal; split; [reflexivity|left; reflexivity].
-    - apply IH. }
-  unfold g_scanString.
-  destruct (L F 0 (fst (g_next g)) (snd (g_next g))) as (ch' & c & E & Hc). rewrite E.
-  destruct (g_string F F q 0 (fst (g_next g)) (snd (g_next g))) as [[cnt' g']|]; [|reflexivity].
-  destruct Hc as [-> | ->]; reflexivity.
-Qed.
-Lemma IsSpace_bridge : fn_ok fn_IsSpace.
-Proof. intros args g T. one_arg args T v. reflexivity. Qed.
-
-Lemma IsAlphabetic_bridge : fn_ok fn_IsAlphabetic.
-Proof. intros args g T. one_arg args T v. go. unfold g_isAlphabetic. crunch. Qed.
-
-Lemma IsAlphaNumeric_bridge : sig "IsAlphabetic" -> fn_ok fn_IsAlphaNumeric.
-Proof. intros H1 args g T. one_arg args T v. go. unfold g_isAlphaNumeric. crunch. Qed.
-
-(* ---------------------------------------------------------------- state.go *)
-(* scanNumber: `digits := ...; if l.accept("0") { ... }` *)
-Lemma scanNumber_head :
-  sig "accept" -> forall g,
-  exec_block ul ud us call F (firstn 2 (fn_body fn_scanNumber)) [VInt 0; VInt 0; VInt 0; VInt 0] g =
-  Ok (CNormal, [VRunes (fst (g_number_prefix g)); VInt 0; VInt 0; VInt 0]) (snd (g_number_prefix g)).
-Proof. intros H1 g. go. unfold g_number_prefix. go. solve_cases. Qed.
-
-(* scanNumber from `if l.accept("eE")` on *)
-Lemma scanNumber_tail :
-  sig "accept" -> sig "acceptRun" -> sig "peek" -> sig "next" -> sig "IsAlphaNumeric" ->
-  forall digits a b c g,
-  exec_block ul ud us call F (skipn 3 (skipn 2 (fn_body fn_scanNumber))) [VRunes digits; a; b; c] g =
-  match g_number_exp ul ud F digits g with
-  | Some (ok, g') => Ok (CReturn [VBool ok], [VRunes digits; a; b; c]) g'
-  | None => OutOfFuel
-  end.
-Proof.
-  intros H1 H2 H3 H4 H5 digits a b c g. go. unfold g_number_exp. go. solve_cases.
-Qed.
-
-Lemma scanNumber_bridge :
-  sig "accept" -> sig "acceptRun" -> sig "peek" -> sig "next" -> sig "IsAlphaNumeric" -> fn_ok fn_scanNumber.
-Proof.
-  intros H1 H2 H3 H4 H5 args g T. no_args args T.
-  unfold run_fn. cbn [negb Nat.eqb List.length fn_params fn_locals fn_scanNumber app repeat].
-  rewrite (exec_block_split 2), (scanNumber_head H1). cbn [bind].
-  rewrite (exec_block_split 3).
-  remember (exec_block ul ud us call F (skipn 3 (skipn 2 (fn_body fn_scanNumber)))) as TAIL eqn:ET.
-  assert (TL : forall digits a b c g0, TAIL [VRunes digits; a; b; c] g0 =
-               match g_number_exp ul ud F digits g0 with
-               | Some (ok, g') => Ok (CReturn [VBool ok], [VRunes digits; a; b; c]) g'
-               | None => OutOfFuel
-               end) by (intros; subst TAIL; apply scanNumber_tail; assumption).
-  clear ET. go. unfold g_scanNumber, g_number_frac.
-  generalize (g_number_prefix g); intros [digits g0]. go.
-  repeat (first [rewrite TL; go | case_step]).
-  all: repeat (match goal with |- context [g_number_exp ?a ?b ?n ?d ?x] => generalize (g_number_exp a b n d x); intros [[? ?]|] end; go).
-  all: reflexivity.
-Qed.
-Lemma number_bridge : sig "scanNumber" -> sig "error" -> sig "emit" -> fn_ok fn_number.
-Proof.
-  intros H1 H2 H3 args g T. no_args args T. go. unfold g_number. go. solve_cases.
-Qed.
-
-Lemma dot_bridge : sig "next" -> sig "accept" -> sig "backup" -> sig "emit" -> fn_ok fn_dot.
-Proof.
-  intros H1 H2 H3 H4 args g T. no_args args T. go. unfold g_dot. go. solve_cases.
-Qed.
-
-Lemma nilsafe_bridge : sig "next" -> sig "accept" -> sig "emit" -> fn_ok fn_nilsafe.
-Proof.
-  intros H1 H2 H3 args g T. no_args args T. go. reflexivity.
-Qed.
-
-Lemma not_bridge : sig "acceptWord" -> sig "emitValue" -> fn_ok fn_not.
-Proof.
-  intros H1 H2 args g T. no_args args T. go. unfold g_not. go. solve_cases.
-Qed.
-
-Lemma root_bridge :
-  sig "next" -> sig "emitEOF" -> sig "IsSpace" -> sig "ignore" -> sig "scanString" -> sig "unescape" -> sig "word" ->
-  sig "error" -> sig "emitValue" -> sig "backup" -> sig "peek" -> sig "emit" -> sig "accept" -> sig "IsAlphaNumeric" ->
-  fn_ok fn_root.
-Proof.
-  intros H1 H2 H3 H4 H5 H6 H7 H8 H9 H10 H11 H12 H13 H14 args g T. no_args args T. gof. unfold g_root. go.
-  repeat case_step.
-  all: reflexivity.
-Qed.
-Lemma identifier_bridge :
-  sig "next" -> sig "IsAlphaNumeric" -> sig "backup" -> sig "word" -> sig "emit" -> fn_ok fn_identifier.
-Proof.
-  intros H1 H2 H3 H4 H5 args g T. no_args args T. go.
-  match goal with
-  | |- context [for_loop F ?l ?C ?P ?B _ g] =>
-    assert (L : forall n r0 g0, exists r',
-                for_loop n l C P B [VInt r0] g0 =
-                match g_run n (g_isAlphaNumeric ul ud) g0 with
-                | Some g1 =>
-                  if runes_eqb (g_word (g_backup g1)) (rs "not") then Ok (CReturn [VFn SNot], [VInt r']) (g_backup g1)
-                  else if existsb (runes_eqb (g_word (g_backup g1))) word_ops
-                       then Ok (CNormal, [VInt r']) (g_emit TkOperator (g_backup g1))
-                       else Ok (CNormal, [VInt r']) (g_emit TkIdentifier (g_backup g1))
-                | None => OutOfFuel
-                end)
-  end.
-  { induction n as [|n IH]; intros r0 g0; [exists 0; reflexivity|].
-    rewrite for_loop_S. go. cbn [g_run].
-    generalize (g_next g0); intros [r g1]; cbn [fst snd].
-    destruct (g_isAlphaNumeric ul ud r); go; [apply IH|].
-    exists r. unfold word_ops. cbn [existsb]. go.
-    generalize (g_backup g1); intros g2. go. generalize (g_word g2); intros w. go.
-    repeat (sp1; go). all: reflexivity. }
-  unfold g_identifier. destruct (L F 0 g) as [r' E]. rewrite E.
-  generalize (g_run F (g_isAlphaNumeric ul ud) g); intros [g1|]; [|reflexivity].
-  generalize (g_backup g1); intros g2. cbn zeta. generalize (g_word g2); intros w.
-  repeat (sp1; go). all: reflexivity.
-Qed.
-
-Lemma acceptWord_bridge : sig "peek" -> sig "next" -> fn_ok fn_acceptWord.
-Proof.
-  intros H1 H2 args g T. one_arg args T v. rename s into w. go. unfold g_acceptWord.
-  generalize (g_peek g); intros [r0 g0]; cbn [fst snd]. go.
-  match goal with
-  | |- context [for_loop F ?l ?C ?P ?B [?a; ?b; ?c; ?d; _; ?e] g0] =>
-    assert (L : forall n r g1, for_loop n l C P B [a; b; c; d; VInt r; e] g1 =
-                match g_skip n r g1 with
-                | Some (r', g') => Ok (CNormal, [a; b; c; d; VInt r'; e]) g'
-                | None => OutOfFuel
-                end)
-  end.
-  { induction n as [|n IH]; intros r g1; [reflexivity|].
-    rewrite for_loop_S. go. cbn [g_skip].
-    destruct (r =? 32); go; [|reflexivity].
-    generalize (g_next g1); intros [r1 g2]; cbn [fst snd]. go.
-    generalize (g_peek g2); intros [r2 g3]; cbn [fst snd]. go. apply IH. }
-  rewrite L. clear L.
-  generalize (g_skip F r0 g0); intros [[r1 g1]|]; [|reflexivity]. go.
-  match goal with
-  | |- context [range_loop w ?v ?B [?a; ?b; ?c; ?d; ?e; _] g1] =>
-    assert (R : forall w' ch0 g2, exists ch',
-                range_loop w' v B [a; b; c; d; e; VInt ch0] g2 =
-                if fst (g_expect w' g2)
-                then Ok (CNormal, [a; b; c; d; e; VInt ch']) (snd (g_expect w' g2))
-                else Ok (CReturn [VBool false], [a; b; c; d; e; VInt ch'])
-                        (g_restore (snd (g_expect w' g2)) (g_end g) (g_loc g) (g_prev g)))
-  end.
-  { induction w' as [|ch w' IH]; intros ch0 g2; [exists ch0; reflexivity|].
-    rewrite range_loop_cons. go. cbn [g_expect].
-    generalize (g_next g2); intros [r2 g3]; cbn [fst snd]. go.
-    destruct (r2 =? ch); go; cbn [negb]; [apply IH|exists ch; reflexivity]. }
-  destruct (R w 0 g1) as [ch' E]. rewrite E. clear R E.
-  generalize (g_expect w g1); intros [ok g2]; cbn [fst snd].
-  destruct ok; go; [|reflexivity].
-  generalize (g_peek g2); intros [r2 g3]; cbn [fst snd]. go.
-  repeat (sp1; go). all: reflexivity.
-Qed.
-
-(* ---------------------------------------------------------------- Lex *)
-(* for state := root; state != nil; { state = state(l) } *)
-Fixpoint g_lex_loop (n : nat) (o : option stfn) (g : gst) : option gst :=
-  match n with
-  | O => None
-  | S f =>
-    match o with
-    | None => Some g
-    | Some st =>
-      match g_step ul ud us F st g with
-      | None => None
-      | Some (o', g') => g_lex_loop f o' g'
-      end
-    end
-  end.
-
-Definition g_Lex (input : list Z) : res (list val) :=
-  match g_lex_loop F (Some SRoot) (g_init input) with
-  | None => OutOfFuel
-  | Some g' =>
-    match g_err g' with
-    | Some p => Ok [VNil; VErrAt p] g'
-    | None => Ok [VToks (g_tokens g'); VNil] g'
-    end
-  end.
-
-Lemma Lex_bridge :
-  sig "root" -> sig "number" -> sig "dot" -> sig "nilsafe" -> sig "identifier" -> sig "not" ->
-  forall input g, run_fn ul ud us call F fn_Lex [VRunes input] g = g_Lex input.
-Proof.
-  intros H1 H2 H3 H4 H5 H6 input g. go.
-  match goal with
-  | |- context [for_loop F ?l ?C ?P ?B [?a; _] ?g0] =>
-    assert (L : forall n o g1, for_loop n l C P B [a; vfn o] g1 =
-                match g_lex_loop n o g1 with
-                | Some g' => Ok (CNormal, [a; VNil]) g'
-                | None => OutOfFuel
-                end)
-  end.
-  { induction n as [|n IH]; intros o g1; [reflexivity|].
-    rewrite for_loop_S. destruct o as [st|]; [|reflexivity].
-    cbn [g_lex_loop vfn]. destruct st; go; cbn [g_step].
-    - generalize (g_root ul ud us F g1); intros [[o' g']|]; [|reflexivity]. go. apply IH.
-    - generalize (g_number ul ud F g1); intros [[o' g']|]; [|reflexivity]. go. apply IH.
-    - generalize (g_dot g1); intros [o' g']. go. apply IH.
-    - generalize (g_nilsafe g1); intros [o' g']. go. apply IH.
-    - generalize (g_identifier ul ud F g1); intros [[o' g']|]; [|reflexivity]. go. apply IH.
-    - generalize (g_not F g1); intros [[o' g']|]; [|reflexivity]. go. apply IH. }
-  change (VFn SRoot) with (vfn (Some SRoot)). rewrite L. unfold g_Lex.
-  change (with_startLoc _ _) with (g_init input).
-  generalize (g_lex_loop F (Some SRoot) (g_init input)); intros [g'|]; [|reflexivity]. go.
-  destruct (g_err g') eqn:E; go; rewrite ?E; reflexivity.
-Qed.
-End Stage1.
-
 
 (* ================================================================== the table *)
 Section Table.
@@ -474,4 +50,5 @@ Proof.
   rewrite sem_of_head. apply Lex_bridge; apply funs_ok; vm_compute; reflexivity.
 Qed.
 End Table.
+
 
